@@ -14,10 +14,18 @@ from vfpy import invariants
 from vfpy.world import World
 
 _seen = set()
+_before: set[int] = set()
+
+
+def pytest_runtest_setup(item):
+    gc.collect()
+    _before.clear()
+    _before.update(id(o) for o in gc.get_objects() if isinstance(o, ir.Graph))
 
 
 def pytest_runtest_teardown(item, nextitem):
-    graphs = [o for o in gc.get_objects() if isinstance(o, ir.Graph)]
+    # only graphs created by this test: leftovers of earlier tests are not this test's business
+    graphs = [o for o in gc.get_objects() if isinstance(o, ir.Graph) and id(o) not in _before]
     if not graphs:
         return
     w = World()
